@@ -397,50 +397,64 @@ Fixpoint validate_usermodes (idx : N) (modes : list (str * list str)) : option c
 
 Definition in_chars (c : N) (s : string) : bool := contains c (lit s).
 
+(* the classes of channel-mode characters, as the two match statements over them distinguish *)
+Inductive mclass := MPlus | MMinus | MListC | MRankC | MLimitC | MKeyC | MFlagC | MOtherC.
+Definition classify_mode (c : N) : mclass :=
+  if N.eqb c c_plus then MPlus
+  else if N.eqb c c_minus then MMinus
+  else if in_chars c "beI" then MListC
+  else if in_chars c "ovhqa" then MRankC
+  else if N.eqb c 108 (* l *) then MLimitC
+  else if N.eqb c 107 (* k *) then MKeyC
+  else if in_chars c "imtns" then MFlagC
+  else MOtherC.
+
 (* the closure over ms.chars() with the shared argument iterator *)
 Fixpoint vcm_chars (target : str) (idx : N) (cs : str) (mode_set : bool) (args : list str)
   : option cmd_error :=
   match cs with
   | [] => None
   | c :: cs' =>
-      if N.eqb c c_plus then vcm_chars target idx cs' true args
-      else if N.eqb c c_minus then vcm_chars target idx cs' false args
-      else if in_chars c "beI" then vcm_chars target idx cs' mode_set (tl args)
-      else if in_chars c "ovhqa" then
-        match args with
-        | a :: args' =>
-            match validate_username_e a with
-            | None => vcm_chars target idx cs' mode_set args'
-            | Some e => Some (InvalidModeParam target c a (uname_err_text e))
-            end
-        | [] => Some (InvalidModeParam target c [] (lit "No argument"))
-        end
-      else if N.eqb c 108 (* l *) then
-        if mode_set then
+      match classify_mode c with
+      | MPlus => vcm_chars target idx cs' true args
+      | MMinus => vcm_chars target idx cs' false args
+      | MListC => vcm_chars target idx cs' mode_set (tl args)
+      | MRankC =>
           match args with
           | a :: args' =>
-              match parse_uint usize_max a with
-              | inl _ => vcm_chars target idx cs' mode_set args'
-              | inr e => Some (InvalidModeParam target c a (parse_err_text e))
+              match validate_username_e a with
+              | None => vcm_chars target idx cs' mode_set args'
+              | Some e => Some (InvalidModeParam target c a (uname_err_text e))
               end
           | [] => Some (InvalidModeParam target c [] (lit "No argument"))
           end
-        else match args with
-             | a :: _ => Some (InvalidModeParam target c a (lit "Unexpected argument"))
-             | [] => vcm_chars target idx cs' mode_set args
-             end
-      else if N.eqb c 107 (* k *) then
-        if mode_set then
-          match args with
-          | _ :: args' => vcm_chars target idx cs' mode_set args'
-          | [] => Some (InvalidModeParam target c [] (lit "No argument"))
-          end
-        else match args with
-             | a :: _ => Some (InvalidModeParam target c a (lit "Unexpected argument"))
-             | [] => vcm_chars target idx cs' mode_set args
-             end
-      else if in_chars c "imtns" then vcm_chars target idx cs' mode_set args
-      else Some (UnknownMode idx c target)
+      | MLimitC =>
+          if mode_set then
+            match args with
+            | a :: args' =>
+                match parse_uint usize_max a with
+                | inl _ => vcm_chars target idx cs' mode_set args'
+                | inr e => Some (InvalidModeParam target c a (parse_err_text e))
+                end
+            | [] => Some (InvalidModeParam target c [] (lit "No argument"))
+            end
+          else match args with
+               | a :: _ => Some (InvalidModeParam target c a (lit "Unexpected argument"))
+               | [] => vcm_chars target idx cs' mode_set args
+               end
+      | MKeyC =>
+          if mode_set then
+            match args with
+            | _ :: args' => vcm_chars target idx cs' mode_set args'
+            | [] => Some (InvalidModeParam target c [] (lit "No argument"))
+            end
+          else match args with
+               | a :: _ => Some (InvalidModeParam target c a (lit "Unexpected argument"))
+               | [] => vcm_chars target idx cs' mode_set args
+               end
+      | MFlagC => vcm_chars target idx cs' mode_set args
+      | MOtherC => Some (UnknownMode idx c target)
+      end
   end.
 
 Fixpoint validate_channelmodes (target : str) (idx : N) (modes : list (str * list str))
